@@ -214,10 +214,10 @@ Qed.
 (* color / luminosity equal the PDF formula exactly when the shifted colour needs no clipping *)
 Theorem formula_color_noclip cb cs :
   unit3 (map3 NR (fun v => v + (lum NR cb - lum NR cs)) cs) -> color_rgb NR cb cs = s_color cb cs.
-Proof. intro H. unfold color_rgb, s_color. rewrite <- lum_is_spec. apply set_lum_is_spec_noclip. exact H. Qed.
+Proof. intro H. unfold color_rgb, s_color. rewrite <- (lum_is_spec cb). apply set_lum_is_spec_noclip. exact H. Qed.
 Theorem formula_luminosity_noclip cb cs :
   unit3 (map3 NR (fun v => v + (lum NR cs - lum NR cb)) cb) -> luminosity_rgb NR cb cs = s_luminosity cb cs.
-Proof. intro H. unfold luminosity_rgb, s_luminosity. rewrite <- lum_is_spec. apply set_lum_is_spec_noclip. exact H. Qed.
+Proof. intro H. unfold luminosity_rgb, s_luminosity. rewrite <- (lum_is_spec cs). apply set_lum_is_spec_noclip. exact H. Qed.
 Theorem lum_color_noclip cb cs :
   unit3 (map3 NR (fun v => v + (lum NR cb - lum NR cs)) cs) -> lum NR (color_rgb NR cb cs) = lum NR cb.
 Proof. intro H. unfold color_rgb. apply lum_set_lum. exact H. Qed.
@@ -258,9 +258,10 @@ Theorem wrap_cmyk_range f cb cs :
   le3 (f (cmyk2rgb NR cb) (cmyk2rgb NR cs)) (1 - snd cs) -> unit4 (wrap_cmyk NR f cb cs).
 Proof.
   intros Hk Hu Hl. unfold wrap_cmyk. cbv zeta. rewrite rgb2cmy_chan.
-  destruct (f (cmyk2rgb NR cb) (cmyk2rgb NR cs)) as [[r g] b]. unfold map3, unit4.
-  destruct Hu as (Hr & Hg & Hb). destruct Hl as (Lr & Lg & Lb). unfold unit in Hr, Hg, Hb.
-  repeat split; try apply cmy_chan_range; try assumption; try lra; apply Hk.
+  destruct (f (cmyk2rgb NR cb) (cmyk2rgb NR cs)) as [[r g] b]. destruct cs as [[[c' m'] y'] k].
+  cbn [snd] in *. unfold map3, unit4.
+  destruct Hu as (Hr & Hg & Hb). destruct Hl as (Lr & Lg & Lb). unfold unit in Hr, Hg, Hb. cbn [T NR] in *.
+  split; [|split; [|split]]; try exact Hk; apply cmy_chan_range; try exact Hk; lra.
 Qed.
 
 (* with K of the source = 0 the whole CMYK path is in range *)
@@ -269,9 +270,10 @@ Proof.
   intros Hb Hs K0. unfold blend_cmyk.
   pose proof (range_rgb m _ _ (cmyk2rgb_unit _ Hb) (cmyk2rgb_unit _ Hs)) as Hu.
   apply wrap_cmyk_range.
-  - rewrite K0. unfold unit. lra.
+  - destruct cs as [[[c' m'] y'] k]. cbn [snd] in *. subst k. unfold unit. lra.
   - exact Hu.
-  - rewrite K0. destruct (blend_rgb NR m _ _) as [[r g] b]. unfold le3. destruct Hu as ([? ?] & [? ?] & [? ?]). lra.
+  - destruct (blend_rgb NR m _ _) as [[r g] b]. destruct cs as [[[c' m'] y'] k]. cbn [snd] in *. subst k.
+    unfold le3. destruct Hu as ([? ?] & [? ?] & [? ?]). cbn [T NR] in *. lra.
 Qed.
 
 (* ... and in general it is not: a white backdrop under a source with K = 1/2, lighter colour *)
